@@ -6,7 +6,7 @@ use crate::model::{b, hexs, Pt, B};
 use crate::mon::{guarded, par, rng_for, Rec};
 use crate::r1::*;
 use crate::sh::*;
-use crate::zoo::rand_below;
+use crate::zoo::{rand_below, rand_range};
 use decaf377::r1cs::verif_hooks::{isqrt_calls, set_isqrt_hint_override};
 use serde_json::json;
 use std::sync::{Arc, Mutex};
@@ -301,6 +301,12 @@ pub fn run(ctx: &Ctx, rec: &mut Rec) {
             }
         }
     });
+    // ---------------- (d) hostile circuits with an honest prover: one variable of a larger circuit is a
+    // lazily decoded *invalid* encoding (witness or public input), surrounded by valid elements in every
+    // allocation mode and by padding witnesses (so that variable indices of different kinds coincide);
+    // once that variable is forced the system must not be satisfied, whatever else the circuit did before
+    hostile_programs(ctx, rec, &zoo);
+
     // ---------------- end-to-end impact of the known den = 0 family: with the repository's *pinned*
     // decompression proving key a Groth16 proof that "s = q-1 decodes to P" verifies for arbitrary P
     {
@@ -340,4 +346,105 @@ pub fn run(ctx: &Ctx, rec: &mut Rec) {
     // ---------------- (c) tamper-and-propagate over every other non-deterministic witness
     crate::tamper::run(ctx, rec);
     rec.check_coverage();
+}
+
+
+fn hostile_programs(ctx: &Ctx, rec: &mut Rec, zoo: &[SE]) {
+    use ark_r1cs_std::prelude::*;
+    use ark_r1cs_std::R1CSVar;
+    use decaf377::r1cs::{ElementVar, FqVar};
+    let c = &ctx.c;
+    rec.declare_form("hostile program: invalid lazy encoding forced");
+    // invalid encodings (the native decoder rejects): negative, non-square discriminant, near-valid rejects.
+    // s = q-1 (den = 0) is left out here: with the honest hint it is rejected, and the malicious hint is the
+    // known finding handled above.
+    let mut invalid: Vec<(B, &'static str)> = Vec::new();
+    {
+        let mut rng = rng_for(ctx.seed, P, 996, 0);
+        for (s, cl) in field_inputs_decode(ctx, &mut rng, 60) {
+            if c.decode_spec_fe(&s).is_err() && s != &c.f.p - b(1) {
+                invalid.push((s, cl));
+            }
+        }
+    }
+    let nprog = ctx.scale(1500, 20_000);
+    par(rec, |w, n, rec| {
+        let mut rng = rng_for(ctx.seed, P, w, 91);
+        for pi in 0..nprog {
+            if pi % n != w {
+                continue;
+            }
+            let (bad_s, bad_class) = invalid[rand_range(&mut rng, invalid.len())].clone();
+            let n_valid = 1 + rand_range(&mut rng, 3);
+            let valid: Vec<(usize, El)> = (0..n_valid).map(|_| (rand_range(&mut rng, 5), zoo[rand_range(&mut rng, zoo.len())].l)).collect();
+            let padding = rand_range(&mut rng, 5);
+            let bad_as_input = rand_range(&mut rng, 4) == 0;
+            let bad_first = rand_range(&mut rng, 3) == 0;
+            let force = rand_range(&mut rng, 5);
+            let pre_ops = rand_range(&mut rng, 4);
+            rec.form("hostile program: invalid lazy encoding forced");
+            rec.eval(&("hostile-program", pi, ctx.seed), false);
+            rec.count("hostile_programs", 1);
+            let lbad = fq(&bad_s);
+            let valid2 = valid.clone();
+            let res = guarded(move || -> Result<Option<bool>, String> {
+                let cs = new_cs(false);
+                let se = |e: ark_relations::r1cs::SynthesisError| format!("{e:?}");
+                let alloc_bad = |cs: &CS| -> Result<ElementVar, ark_relations::r1cs::SynthesisError> {
+                    if bad_as_input { AllocVar::<Fq, Fq>::new_input(cs.clone(), || Ok(lbad)) } else { AllocVar::<Fq, Fq>::new_witness(cs.clone(), || Ok(lbad)) }
+                };
+                let mut bad: Option<ElementVar> = None;
+                if bad_first {
+                    bad = Some(alloc_bad(&cs).map_err(se)?);
+                }
+                let mut regs: Vec<ElementVar> = Vec::new();
+                for (kind, e) in &valid2 {
+                    let e = *e;
+                    let v: ElementVar = match kind {
+                        0 => raw(&cs, &e).map_err(se)?,
+                        1 => ElementVar::new_witness(cs.clone(), || Ok(e)).map_err(se)?,
+                        2 => ElementVar::new_input(cs.clone(), || Ok(e)).map_err(se)?,
+                        3 => { let enc_f = e.vartime_compress_to_field(); AllocVar::<Fq, Fq>::new_witness(cs.clone(), || Ok(enc_f)).map_err(se)? }
+                        _ => { let enc_f = e.vartime_compress_to_field(); AllocVar::<Fq, Fq>::new_input(cs.clone(), || Ok(enc_f)).map_err(se)? }
+                    };
+                    regs.push(v);
+                }
+                for k in 0..padding {
+                    let _ = FqVar::new_witness(cs.clone(), || Ok(Fq::from(k as u64 + 3))).map_err(se)?;
+                }
+                // use (and thereby decode) the valid registers before the hostile variable appears
+                for k in 0..pre_ops {
+                    let i = k % regs.len();
+                    match k % 3 {
+                        0 => { let _ = regs[i].negate().map_err(se)?; }
+                        1 => { let r = regs[i].clone() + regs[(i + 1) % regs.len()].clone(); regs.push(r); }
+                        _ => { let _ = regs[i].compress_to_field().map_err(se)?; }
+                    }
+                }
+                let bad = match bad { Some(v) => v, None => alloc_bad(&cs).map_err(se)? };
+                // force the decoding of the hostile variable
+                let forced: Result<(), ark_relations::r1cs::SynthesisError> = (|| {
+                    match force {
+                        0 => { let _ = bad.negate()?; }
+                        1 => { let _ = bad.clone() + regs[0].clone(); }
+                        2 => { let _ = bad.is_eq(&regs[0])?; }
+                        3 => { let mut x = regs[0].clone(); x += bad.clone(); }
+                        _ => { bad.enforce_equal(&regs[0])?; }
+                    }
+                    Ok(())
+                })();
+                if forced.is_err() {
+                    return Ok(None); // synthesis refused: nothing was decoded
+                }
+                Ok(Some(cs.is_satisfied().map_err(se)?))
+            });
+            let detail = json!({"invalid_encoding": crate::model::hexs(&bad_s), "class": bad_class, "as_public_input": bad_as_input, "allocated_first": bad_first, "padding_witnesses": padding, "valid_registers": valid.iter().map(|(k, _)| *k).collect::<Vec<_>>(), "forced_by": force});
+            match res {
+                Err(_) | Ok(Err(_)) | Ok(Ok(None)) => rec.count("hostile programs: synthesis refused / aborted", 1),
+                Ok(Ok(Some(false))) => rec.count("hostile programs: unsatisfied (as required)", 1),
+                Ok(Ok(Some(true))) => rec.violation(format!("{P}:hostile-program:invalid-encoding-decoded:{bad_class}"),
+                    format!("a circuit that decodes the invalid encoding {} ({bad_class}) among valid elements is satisfied with honest hints", crate::model::hexs(&bad_s)), detail),
+            }
+        }
+    });
 }
